@@ -7,13 +7,16 @@ export GOFLAGS=-mod=mod GOPROXY=off GOSUMDB=off GOTOOLCHAIN=local
 mkdir -p $V/bin $V/.work $V/evidence
 cd $V/harness
 go build -o $V/bin/instrument ./cmd/instrument
+REPO=/repo; HOOKVAR=""
 W=$V/.work/setup.$$; mkdir -p $W/inst; trap 'rm -rf $W' EXIT
 hooks_entries() {
   sep=""
-  for f in $V/hooks/*_zz_verif.go; do
-    pkg=$(basename "$f" _zz_verif.go)
-    if [ "$pkg" = root ]; then dst=/repo/zz_verif.go; else dst=/repo/$pkg/zz_verif.go; fi
-    printf '%s"%s":"%s"' "$sep" "$dst" "$f"; sep=","
+  for f in $V/hooks/*_zz_verif.go $V/hooks/*_zz_verifint$HOOKVAR.go; do
+    [ -f "$f" ] || continue
+    b=$(basename "$f" .go); pkg=${b%%_zz_*}; name=zz_${b#*_zz_}
+    if [ "$pkg" = root ]; then dst=$REPO/$name.go; else dst=$REPO/$pkg/$name.go; fi
+    printf '%s"%s":"%s"' "$sep" "$dst" "$f"
+    sep=","
   done
 }
 { printf '{"Replace":{'; hooks_entries; printf '}}\n'; } > $W/overlay.json
